@@ -12,6 +12,7 @@ from vp import gen, probe, propmodel, refmodels as rm
 from vp import defaults
 from vp import reuse
 from vp import forms as argforms
+from vp import corners
 
 RULE = ('seeded generator: pupil amplitude/OPD arrays 3..24 per side (even/odd/non-square, off-centre support), '
         'wavelength, focal length, scalar or per-axis dx and du, oversample 1..4, output shapes, prop_shape <= shape, '
@@ -20,7 +21,7 @@ RULE = ('seeded generator: pupil amplitude/OPD arrays 3..24 per side (even/odd/n
         'more than one non-zero sample.')
 ASSUMPTIONS = ['tilt-free wavefronts only (tilt is C04)', 'all-zero masks are rejected by lentil and outside the property']
 PLAN = {'quick': {'gen': 8}, 'thorough': {'gen': 16, 'tests': 1, 'docs': 1}}
-REQUIRED_BUCKETS = ['defaults', 'reuse', 'forms', 'in:ee', 'in:oo', 'in:eo', 'in:oe', 'out:even', 'out:odd', 'dx:iso', 'dx:aniso', 'du:iso', 'du:aniso',
+REQUIRED_BUCKETS = ['defaults', 'corners', 'reuse', 'forms', 'in:ee', 'in:oo', 'in:eo', 'in:oe', 'out:even', 'out:odd', 'dx:iso', 'dx:aniso', 'du:iso', 'du:aniso',
                     'prop<shape', 'prop=shape', 'mask', 'nomask', 'dir:pupil->image', 'dir:image->pupil', 'chain:2',
                     'mask+prop', 'repeated', 'segmented', 'shape:small-int', 'scalars:float32', 'broadband', 'fft:broadband-scratch', 'alpha:near-critical', 'fft:explicit-shape', 'fft:explicit-shape:odd', 'mask:object-reused', 'amp:any-magnitude', 'oversample:integer-valued-float', 'fft:anamorphic', 'fft:even-grid:half-sum-parity=0', 'fft:even-grid:half-sum-parity=1', 'fft:grid-parity=01', 'fft:grid-parity=10']
 REQUIRED_ANCHORS = ['probe:propagate_dft', 'probe:propagate_fft', 'anchor:_dft_alpha', 'anchor:_mask_shift', 'anchor:dft2',
@@ -184,6 +185,7 @@ def workload(ctx, lentil):
     defaults.run(ctx, lentil, 'C02', 'dft=fraunhofer')
     reuse.run(ctx, lentil, 'C02', 'dft=fraunhofer')
     argforms.run(ctx, lentil, 'C02', 'dft=fraunhofer')
+    corners.run(ctx, lentil, 'C02', 'dft=fraunhofer')
     rng = ctx.rng
     broadband(ctx, lentil, rng)
     fft_broadband(ctx, lentil, rng)
